@@ -870,6 +870,11 @@ def lift_one(d, repo, canary=False, rename_suffix=None):
         j = q + 1
         while body.s[j].isspace():
             j += 1
+        if body.s.startswith('->', j):
+            # explicit return type `|..| -> T { .. }` (Rust requires a block here); the contract's ret= names the value
+            if not kv.get('ret'):
+                raise LiftError("%s: closure at %r has an explicit return type; give ret=\"(name: Type)\"" % (info['name'], at))
+            j = body.s.index('{', j)
         if body.s[j] == '{':
             be = match_close(body.s, body.k, j) + 1
             has_block = True
